@@ -140,6 +140,7 @@ def configs(tier):
     add(N=3, M=1, latency="sym", free_kinds=["ping"], markov=True, fold="sym")
     add(N=3, M=1, latency="sym", free_kinds=["ping"], warmup="sym", fold="sym")
     add(N=3, M=1, latency="zero", free_kinds=["quote"], episodes=2)
+    add(N=3, M=1, latency="sym", free_kinds=["ping"], episodes=2)
     add(N=3, M=0, latency="zero", grid_perm=[2, 0, 1, 0])
     add(N=3, M=2, latency="zero", free_kinds=["quote", "ping"])
     if tier == "thorough":
